@@ -581,6 +581,51 @@ func genC13(c *Ctx) {
 		runV(t, "honest: one of several local names")
 	}
 
+	// ---- 2b. requests really signed by a key stored under a name that is not a valid server name
+	// (port out of range, signed port, ...): the signature is fine, the origin is not ----
+	for _, o := range append(append([]string{}, badOrigins...), "o.example:65536", "o.example:99999", "o.example:-1", "o.example:+8448", "o.example:", "o.example:65535", "o.example:0", "o.example:080", "[::1]:65536", "1.2.3.4:-1") {
+		g, ok := mk("PUT", o, "dest.example", "/a", true, `{"a":1}`, "ed25519:k1")
+		if !ok {
+			continue
+		}
+		sc, ok := c13Base(g.s, g.st, g.dest)
+		if !ok {
+			continue
+		}
+		sc.flags = "-"
+		runV(sc, "signed by origin name: "+strconv.Quote(o))
+	}
+	// ---- 2c. a request line that is not UTF-8: the sender's Sign replaced the bad byte by
+	// U+FFFD, so the signature covers the U+FFFD form; any invalid byte in its place must be refused ----
+	for _, u := range []string{"/a?x=\xef\xbf\xbd", "/a?x=\xff", "/p?\xef\xbf\xbd=1&y=\xef\xbf\xbd"} {
+		g, ok := mk("PUT", "origin.example", "dest.example", u, true, `{"a":1}`, "ed25519:k1")
+		if !ok {
+			continue
+		}
+		base, ok := c13Base(g.s, g.st, g.dest)
+		if !ok {
+			continue
+		}
+		runV(base, "request line: signed U+FFFD form, untampered")
+		for _, bad := range []string{"\xff", "\xfe", "\xc0\x80", "\xed\xa0\x80", "\xef\xbf"} {
+			t := base.clone()
+			t.flags = "-"
+			t.ruri = strings.Replace(base.ruri, "\xef\xbf\xbd", bad, 1)
+			if pu, err := url.ParseRequestURI(t.ruri); err == nil && pu.RequestURI() == t.ruri {
+				runV(t, "request line: invalid byte in place of the signed U+FFFD")
+			}
+		}
+		for _, m := range []string{"P\xffT", "PUT\xc3", "\xff"} {
+			t := base.clone()
+			t.flags = "-"
+			t.method = m
+			runV(t, "request line: method not UTF-8")
+			t2 := t.clone()
+			t2.ruri = strings.Replace(base.ruri, "\xef\xbf\xbd", "\xff", 1)
+			runV(t2, "request line: method and URI not UTF-8")
+		}
+	}
+
 	// ---- 3. every single-field tampering of an honest transmission ----
 	nt := c.Scale(40, 400)
 	for i := 0; i < nt && len(good) > 0; i++ {
@@ -648,9 +693,10 @@ func genC13(c *Ctx) {
 		"[1:2:3:4:5:6:7:8]", "[1:2:3:4:5:6:7:8:9]", "[1:2:3:4:5:6:7]", "[1:2:3:4:5:6:7::]", "[::2:3:4:5:6:7:8]", "[1::2:3:4:5:6:7:8]", "[1:2:3:4:5:6:7::8]", "[1::8]", "[1::]", "[::8]",
 		"[12345::]", "[1234::]", "[g::]", "[1:::2]", "[1::2::3]", "[:1]", "[1:]", "[::1%eth0]", "[fe80::1%]", "[%]", "[1:2:3:4:5:6:1.2.3.4]", "[1:2:3:4:5:1.2.3.4]", "[::1.2.3.4]", "[1::1.2.3.4]",
 		"[1:2:3:4:5:6:7:1.2.3.4]", "[::1.2.3]", "[::1.2.3.4.5]", "[::01.2.3.4]", "[1.2.3.4::]", "[::FFFF:AbCd]", "[0:0:0:0:0:0:0:0]", "[00000::]", "[::.]", "[::1.]",
+		"host:65535", "host:65536", "host:99999", "host:-1", "host:+8448", "host:0", "host:65535x", "host:6553_5", "host: 80", "host:0x50", "h:1:2", "[::1]:65536", "[::1]:-1", "1.2.3.4:65536", "1.2.3.4:+1",
 		"exa_mple.org", "example.org.", "-", ".", "a..b", "a b", "a\tb", "a/b", "a@b", "*.example.org", "EXAMPLE.ORG:8448", "\xff", "a\xc3\xa9", "12", "1.2.3.4a", "1e3", "0x1.2.3.4")
 	for _, s := range names {
-		c.Run("C13.server_name", Args(s), "C13.server_name", "", "curated")
+		c.Run("C13.server_name", Args(s), "C13.server_name", "C13.prop.server_name", "curated")
 		c.Count("server_name")
 	}
 	ipAlpha := []string{"1", "0", "ff", "a", "12", "1234", ":", "::", ".", "[", "]", "255", "256", ":80", "g", "%"}
@@ -666,9 +712,15 @@ func genC13(c *Ctx) {
 			b.WriteString("]")
 		}
 		if c.Rng.Intn(3) == 0 {
-			b.WriteString(":8448")
+			b.WriteString(pick([]string{":8448", ":0", ":65535", ":65536", ":-1", ":+80", ":080", ":100000", ":"}))
 		}
-		c.Run("C13.server_name", Args(b.String()), "C13.server_name", "", "random")
+		c.Run("C13.server_name", Args(b.String()), "C13.server_name", "C13.prop.server_name", "random")
+		c.Count("server_name")
+	}
+	for i, m := 0, c.Scale(400, 5000); i < m; i++ {
+		h := pick([]string{"host", "a.b-c.example", "1.2.3.4", "EXAMPLE.org", "x", "a_b", "", "[::1]", "[2001:db8::1]"})
+		p := pick([]string{"", ":1", ":8448", ":65535", ":65536", ":70000", ":-1", ":+1", ":00443", ":4294967296", ":18446744073709551617", ":1e3", ": 1", ":１"})
+		c.Run("C13.server_name", Args(h+p), "C13.server_name", "C13.prop.server_name", "host-port product")
 		c.Count("server_name")
 	}
 	for _, s := range c13ContentTypes {
